@@ -34,16 +34,16 @@ PROPS = {
         {"sub": "C18x", "kind": "test", "run": "TestC18Exhaustive"},
     ]},
     "C05": {"jobs": [
-        rapid("C05a", 1000, 5000, shrinktime="15s"),
+        rapid("C05a", 1000, 2500, shrinktime="15s", race_shards=1),
     ]},
     "C06": {"jobs": [
-        rapid("C06a", 1000, 5000, shrinktime="15s"),
+        rapid("C06a", 1000, 2500, shrinktime="15s", race_shards=1),
     ]},
     "C09": {"jobs": [
-        rapid("C09a", 1000, 5000, shrinktime="15s"),
+        rapid("C09a", 1000, 2000, shrinktime="15s"),
     ]},
     "C07": {"jobs": [
-        rapid("C07a", 2000, 8000, shrinktime="15s", race_shards=1),
+        rapid("C07a", 2000, 5000, shrinktime="15s", race_shards=1),
     ]},
     "C14": {"level": "fault_enumeration", "jobs": [
         {"sub": "C14a", "kind": "test", "run": "TestC14Grid"},
